@@ -839,3 +839,113 @@ def k7_seen_threading(ctx) -> None:
                     ctx.violation("K7", r, "all_proof_trees_dfs drops the classes seen under the remaining roots")
     if n < 2:
         ctx.floor("K7", 2)
+
+
+# ------------------------------------------------------------------------ K8 / K9
+def k8_strategy_parent_pairing(ctx, modules) -> None:
+    """A strategy fetched from a rule store under key (P, children) is re-applied to the
+    class of that same label P (the stored strategy reproduces the rule only there)."""
+    P = ctx.P
+    n = 0
+    for fi in P.all_functions():
+        if fi.module.short not in modules:
+            continue
+        f = fi.node
+        for st in walk_local(f):
+            if not (isinstance(st, ast.Assign) and len(st.targets) == 1 and isinstance(st.targets[0], ast.Name)):
+                continue
+            v = st.value
+            if not (isinstance(v, ast.Subscript) and isinstance(v.value, ast.Attribute) and v.value.attr in ("rule_to_strategy", "eqv_rule_to_strategy")):
+                continue
+            sname = st.targets[0].id
+            key = v.slice
+            if isinstance(key, ast.Tuple) and len(key.elts) == 2:
+                ptxt = norm(key.elts[0])
+            elif isinstance(key, ast.Name):
+                ptxt = f"{key.id}[0]"
+            else:
+                continue
+            # applications of that strategy variable reached by this definition
+            for c in walk_local(f):
+                if not (isinstance(c, ast.Call) and isinstance(c.func, ast.Name) and c.func.id == sname and len(c.args) == 1):
+                    continue
+                r = D.reaching_value(f, c.func, sname)
+                if r is not None and r[0] is not st:
+                    continue
+                if r is None:
+                    # no single dominating definition (try / except arrangement): pair the call with
+                    # this definition when every definition of the name fetches from a store with the
+                    # same parent label, or when the call sits in the try whose body holds the definition
+                    alld = D.definitions(f).get(sname, [])
+                    same = all(d[1] is not None and isinstance(d[1], ast.Subscript) and isinstance(d[1].value, ast.Attribute)
+                               and d[1].value.attr in ("rule_to_strategy", "eqv_rule_to_strategy")
+                               and (norm(d[1].slice.elts[0]) if isinstance(d[1].slice, ast.Tuple) and len(d[1].slice.elts) == 2
+                                    else f"{norm(d[1].slice)}[0]") == ptxt for d in alld)
+                    tries = [a for a in _anc(c) if isinstance(a, ast.Try)]
+                    if not same and not any(st in t.body for t in tries):
+                        continue
+                    if same and alld and alld[0][0] is not st:
+                        continue  # report once per call
+                n += 1
+                ctx.analysed(fi)
+                arg = c.args[0]
+                if isinstance(arg, ast.Name):
+                    rr = D.reaching_value(f, arg, arg.id)
+                    if rr is not None:
+                        arg = rr[1]
+                good = isinstance(arg, ast.Call) and norm(arg.func).endswith("classdb.get_class") and len(arg.args) == 1 and norm(arg.args[0]) == ptxt
+                if good:
+                    ctx.ok("K8", f"{fi.qualname}: strategy stored under ({ptxt}, ..) is re-applied to get_class({ptxt})")
+                else:
+                    ctx.violation("K8", c, f"the strategy stored under the key with parent `{ptxt}` is applied to `{norm(arg)}`, not to the class of that "
+                                  "label: it may not apply there, or it produces another rule than the one recorded")
+    return n
+
+
+def k9_index_order(ctx) -> None:
+    """In the partial extractors, the children of an actual rule are in rule order while
+    indices coming from the finder are in order of sorted representatives: every index into
+    the actual children goes through the index-order map."""
+    P = ctx.P
+    n = 0
+    for cname in ("EquivalenceRuleExtractor", "RulePathToAtomExtractor"):
+        m = P.need_method(cname, "_populate_decompositions", own=True)
+        f = m.node
+        ctx.analysed(m)
+        # names: (parent, children) unpacked from eqvrule_to_rule[...]; the map
+        children = None
+        omap = None
+        for st in walk_local(f):
+            if isinstance(st, ast.Assign) and isinstance(st.targets[0], ast.Tuple) and len(st.targets[0].elts) == 2:
+                if isinstance(st.value, ast.Subscript) and isinstance(st.value.value, ast.Name):
+                    children = norm(st.targets[0].elts[1])
+                elif isinstance(st.value, ast.Call) and norm(st.value.func) == "self._ordered_eqvrule_to_rule":
+                    omap = norm(st.targets[0].elts[1])
+        if children is None or omap is None:
+            raise AnalysisError(f"K9: {m.qualname} no longer unpacks (eqvrule_to_rule, index_order_map) / (parent, children)")
+        for s in walk_local(f):
+            if isinstance(s, ast.Subscript) and isinstance(s.value, ast.Name) and s.value.id == children and isinstance(s.ctx, ast.Load):
+                n += 1
+                idx = s.slice
+                src = idx
+                if isinstance(idx, ast.Name):
+                    r = D.reaching_value(f, idx, idx.id)
+                    src = r[1] if r is not None else idx
+                names = {x.id for x in ast.walk(src) if isinstance(x, ast.Name)}
+                via = omap in names
+                if not via:
+                    # a local assigned from the map (order = index_order_map[eqvrule])
+                    for nm in names:
+                        r = None
+                        for x in ast.walk(src):
+                            if isinstance(x, ast.Name) and x.id == nm:
+                                r = D.reaching_value(f, x, nm)
+                        if r is not None and omap in {y.id for y in ast.walk(r[1]) if isinstance(y, ast.Name)}:
+                            via = True
+                if via:
+                    ctx.ok("K9", f"{m.qualname}: `{norm(s)}` indexes the actual children through the index-order map")
+                else:
+                    ctx.violation("K9", s, f"`{norm(s)}` indexes the actual rule's children with a position of the sorted representatives; "
+                                  f"it must go through `{omap}` (the two orders differ whenever child labels and their representatives sort differently)")
+    if n < 2:
+        ctx.floor("K9", 99)
